@@ -427,6 +427,9 @@ def term_anchor_rule(ctx, rule):
             for o in T.I.run(fn, [kt.mk(k, "self"), kt.mk(k, "other")]):
                 got.add(kt.term(o.ret))
             ok = any(callee in g for g in got) and not any(callee.replace("self.0,other.0", "other.0,self.0") in g for g in got)
+            # ... and by nothing else: every outcome is that one comparison (or, for numbers, "unordered")
+            allowed = {"Ok(Some(%s))" % callee} | ({"Ok(None)"} if k == "Number" else set())
+            ok = ok and got <= allowed
             rep.ob(rule, "term::compare::%s" % k, ok, "" if ok else "compare(%s, %s) does not order (self, other) with %s: %s" % (k, k, callee, sorted(got)), fn.loc(), how=callee)
     truthy_terms(ctx, rule)
 
